@@ -1,8 +1,8 @@
 /-
   Model of java/maven_version.go: `parseMavenVersion` (the rune loop with its
   builder, `isDigit`, `pos` and current-list pointer), `normalize`,
-  `component.Compare` with its nil padding, `ordString` and the qualifier
-  table.  Core Lean only.
+  `component.Compare` with its nil padding, `ordString`; the qualifier table
+  is the regenerated `Gen.Versions.mavenQualifiers`.  Core Lean only.
 
   Shape of the values.  The parser's list pointer `l` only ever moves into the
   list it has just appended (`appendList`), and it always appends an item
@@ -16,6 +16,7 @@
   trees the parser can return.
 -/
 import ClairModel.Model.Version
+import ClairModel.Gen.Versions
 
 namespace ClairModel.Maven
 open ClairModel.Order ClairModel.Version
@@ -37,25 +38,20 @@ inductive MV where
 
 def toLowerAscii (c : Char) : Char := if isUpper c then Char.ofNat (c.toNat + 32) else c
 
-/-- The `qualifiers` map: rank of a known qualifier (already lower-cased). -/
-def qualifierRank (s : List Char) : Option Nat :=
-  if s = ['a', 'l', 'p', 'h', 'a'] || s = ['a'] then some 0
-  else if s = ['b', 'e', 't', 'a'] || s = ['b'] then some 1
-  else if s = ['m', 'i', 'l', 'e', 's', 't', 'o', 'n', 'e'] || s = ['m'] then some 2
-  else if s = ['r', 'c'] || s = ['c', 'r'] then some 3
-  else if s = ['s', 'n', 'a', 'p', 's', 'h', 'o', 't'] then some 4
-  else if s = [] || s = ['g', 'a'] || s = ['f', 'i', 'n', 'a', 'l'] || s = ['r', 'e', 'l', 'e', 'a', 's', 'e'] then some 5
-  else if s = ['s', 'p'] then some 6
-  else none
+/-- The `qualifiers` map (regenerated from the source, Gen/Versions.lean):
+    the text a known qualifier (already lower-cased) sorts as. -/
+def qualifierText (s : List Char) : Option (List Char) :=
+  (Gen.Versions.mavenQualifiers.find? fun p => p.1 = s).map (·.2)
 
-def unknownQualifier : Nat := 7
+def unknownQualifier : Nat := Gen.Versions.mavenUnknownQualifier
 
-/-- `ordString`: the text that `strings.Compare` is applied to. -/
+/-- `ordString`: the text that `strings.Compare` is applied to — the table
+    entry of a known qualifier, `"<unknownQualifier>-<lower-cased text>"` otherwise. -/
 def ordString (s : List Char) : List Char :=
   let l := s.map toLowerAscii
-  match qualifierRank l with
-  | some r => [Char.ofNat (48 + r)]
-  | none => Char.ofNat (48 + unknownQualifier) :: '-' :: l
+  match qualifierText l with
+  | some r => r
+  | none => natDigits unknownQualifier ++ '-' :: l
 
 /-! ### component.Compare -/
 
